@@ -1,14 +1,17 @@
 //! Value-directed seeds for the C18 corpus and for C14: states whose image under jump()/long_jump()
-//! is "special" (a zero word, equal words, words summing to zero ...). The jump matrices are computed
-//! as powers of the step matrix extracted from the implementation, so no jump is executed here.
+//! or under one or two steps is "special" (a zero word, equal words, words summing to zero ...),
+//! and the special states themselves. The matrices are powers of the *reference* step matrix, so
+//! no code under test is involved in choosing them.
 
-use crate::linear::{self, Extracted, LinOp};
+use super::c01::{ref_matrix, RefModel};
+use crate::linear;
 use crate::subject::{GenType, Registry};
+use refmodels::gf2::BigU;
 
-/// (type name, op name, seed bytes) triples
+/// (type name, op name, seed bytes) triples; op is "jump", "long_jump" or "step"
 pub fn jump_special_seeds(reg: &dyn Registry, seed: u64) -> Vec<(String, &'static str, Vec<u8>)> {
     let mut out = Vec::new();
-    for ty in reg.types().into_iter().filter(|t| t.info().has_jump) {
+    for ty in reg.types().into_iter().filter(|t| t.info().linear_bits.is_some()) {
         out.extend(for_type(ty, seed));
     }
     out
@@ -18,13 +21,28 @@ pub fn for_type(ty: &dyn GenType, seed: u64) -> Vec<(String, &'static str, Vec<u
     let mut out = Vec::new();
     let info = ty.info();
     let Some(n) = info.linear_bits else { return out };
-    let Ok(t) = linear::extract(ty, LinOp::Step) else { return out };
-    for (name, k) in [("jump", n / 2), ("long_jump", 3 * n / 4)] {
-        let m = t.mat.pow2k(k);
-        let ex = Extracted { op: LinOp::Step, mat: m, c: refmodels::gf2::BitVec::zero(n), executions: 0, images_validated: 0 };
-        for s in linear::preimages_of_special(&ex, info.word_bits, seed) {
-            if !s.is_zero() {
-                out.push((info.name.to_string(), name, s.to_bytes()));
+    let Some(model) = RefModel::for_type(info.name) else { return out };
+    let t = ref_matrix(model);
+    if info.has_jump {
+        for (name, k) in [("jump", n / 2), ("long_jump", 3 * n / 4)] {
+            let m = t.pow2k(k);
+            for img in linear::special_images(n, info.word_bits, seed) {
+                if let Some(s) = m.solve(&img) {
+                    if !s.is_zero() {
+                        out.push((info.name.to_string(), name, s.to_bytes()));
+                    }
+                }
+            }
+        }
+    }
+    // states that are special, or become special after one / two steps
+    for k in [0u64, 1, 2] {
+        let m = t.pow_big(&BigU::from_u64(k));
+        for img in linear::special_images(n, info.word_bits, seed ^ (0x57E9 + k)) {
+            if let Some(s) = m.solve(&img) {
+                if !s.is_zero() {
+                    out.push((info.name.to_string(), "step", s.to_bytes()));
+                }
             }
         }
     }
